@@ -309,9 +309,14 @@ def r5_epoch_filters(ctx):
             s_ = sig(rr[0][2]) if rr else "?"
             caps = "epoch=$2" if fn == "total_votes" else "epoch=$2, key=$3"
             want_s = "Iterator::sum(Iterator::map(Iterator::filter(HashMap::values($1.stakes), closure[%s]), closure[]))" % caps
-            if s_ == want_s:
+            # `.sum()` or a fold from 0 with an addition step (`|a, b| a.saturating_add(b)`): the same summation
+            batch = "Iterator::filter(HashMap::values($1.stakes), closure[%s])" % caps
+            term_s = q.sum_over(ctx.prog, b, rr[0][2], batch) if rr else None
+            if s_ == want_s or term_s is not None:
                 r.ok(fn + "/shape", "sum(map(filter(all stakes)))")
-                others = [c for c in cl if c is not bool_cl[0]]
+                e0 = mir.strip(rr[0][2])
+                mapc = mir.strip(mir.strip(e0[2][0])[2][1]) if e0[0] == "call" and e0[2] and q.is_call(mir.strip(e0[2][0]), "Iterator::map") else None
+                others = [c for c in cl if mapc is not None and mapc[0] == "closure" and c.nname == mapc[1]] or [c for c in cl if c is not bool_cl[0]]
                 if others:
                     r2 = q.ret_assignments(others[0])
                     s2 = sig(r2[0][2]) if r2 else "?"
